@@ -286,7 +286,8 @@ def write_replay(ctx, name, obj):
     h = hashlib.sha256(json.dumps(obj, sort_keys=True).encode()).hexdigest()[:12]
     path = os.path.join(d, "%s-%s-%s.json" % (ctx.pid, name, h))
     obj = dict(obj, property=ctx.pid, replay_cmd="bin/vcheck %s --replay %s" % (ctx.pid, path))
-    json.dump(obj, open(path, "w"), indent=1, ensure_ascii=False)
+    # ASCII-only JSON: patterns may contain lone surrogates, which UTF-8 cannot carry
+    json.dump(obj, open(path, "w"), indent=1, ensure_ascii=True)
     return path
 
 def report_violation(ctx, path, no_input=False):
@@ -311,7 +312,7 @@ def write_evidence(ctx, level, coverage, assumptions):
     ev = dict(property_id=ctx.pid, tier=ctx.tier, seed=ctx.seed, level=level, coverage=coverage,
               assumptions=assumptions, wall_s=round(time.time() - ctx.t0, 2), violations=len(ctx.violations),
               known_findings=ctx.known, log=ctx.log[-40:])
-    json.dump(ev, open(os.path.join(d, "%s.json" % ctx.pid), "w"), indent=1, ensure_ascii=False)
+    json.dump(ev, open(os.path.join(d, "%s.json" % ctx.pid), "w"), indent=1, ensure_ascii=True)
 
 TRUSTED_BASE = [
     "Coq 8.16.1 kernel + coqc (vm_compute used for finite-domain obligations; no native_compute)",
